@@ -82,6 +82,11 @@ def script_for(name, kind, r, model):
                 lines.append("mkdir -p %s; echo lib-%s > %s/lib.txt" % (l, tok, l))
     if model.get("evlog"):
         lines.append('echo "EXEC %s %s $PWD" >> "${VERIF_EVLOG:-/dev/null}"' % (name, kind))
+    inc = r.get("includes")
+    if inc and inc.get("kind", "build") == kind:
+        lines.append("cat $<<%s/%s>> > /dev/null" % (inc["dir"], inc["pattern"]))
+        if inc.get("quoted"):
+            lines.append("echo $<'%s/%s'> > /dev/null" % (inc["dir"], inc["pattern"]))
     extra = (r.get("extra") or {}).get(kind)
     if extra:
         lines.append(extra)
@@ -186,6 +191,16 @@ def write_project(root, model, only_recipes=False):
         p = os.path.join(root, "recipes", name + ".yaml")
         os.makedirs(os.path.dirname(p), exist_ok=True)
         _write(p, y(recipe_doc(name, r, model)).lstrip("\n") + "\n")
+    for name, r in model["recipes"].items():
+        inc = r.get("includes")
+        if inc:
+            d = os.path.join(root, "recipes", os.path.dirname(name), inc["dir"])
+            os.makedirs(d, exist_ok=True)
+            order = list(inc["files"].items())
+            if model.get("reverse_files"):
+                order.reverse()
+            for fn, content in order:
+                _write(os.path.join(d, fn), content)
     if model.get("classes"):
         os.makedirs(os.path.join(root, "classes"), exist_ok=True)
         for name, r in model["classes"].items():
@@ -311,6 +326,10 @@ def gen_model(rnd, n=6, features=()):
             r["ptools"] = {tn: {"path": "bin", "libs": ["lib"] if rnd.random() < 0.4 else [], "env": ({"TE": rnd.choice(VALS)} if rnd.random() < 0.3 else {})}}
         if "pdeps" in f and r["depends"] and rnd.random() < 0.3:
             r["pdeps"] = ["*"]      # refined below (after multiPackage names are known)
+        if "includes" in f and rnd.random() < 0.4:
+            r["includes"] = {"dir": "inc_" + name.replace("/", "_").replace("+", "p").replace(".", "d"), "pattern": rnd.choice(["*.txt", "f*", "*"]), "quoted": rnd.random() < 0.5,
+                             "kind": rnd.choice(["build", "package"]),
+                             "files": {fn: "content-" + new_tok(rnd) + "\n" for fn in rnd.sample(["f1.txt", "f2.txt", "f10.txt", "fa.txt", "fB.txt", "f-x.txt", "f_y.txt", "f.txt"], rnd.randrange(2, 7))}}
         if "shared" in f and rnd.random() < 0.2:
             r["shared"] = True
         if "multi" in f and i > 0 and rnd.random() < 0.2:
